@@ -32,6 +32,7 @@ fn run_case(t: &mut Trace, case: u64, kind: &str, variant: &str, start: u32, src
     t.ev(json!({"ev":"reset","case":case,"hdr":{"kind":kind,"variant":variant,"start":start,"srcs":srcs}}));
     // the *_or_single_it short-cut documents that the start index is ignored for one source: the driver then numbers
     // that source from `start` itself (narrower reading, DESIGN.md C09)
+    // (chain_lazy / chain_filtered never take the short-cut: their size_hint is not (1, Some(1)))
     let single = variant.ends_with("single") && srcs.len() == 1;
     let msgs = build(srcs, if single { Some(start) } else { None });
     let orig = msgs.clone();
@@ -42,6 +43,13 @@ fn run_case(t: &mut Trace, case: u64, kind: &str, variant: &str, start: u32, src
             "merge_single" => SortingMultiReaderIterator::new_or_single_it(start, its),
             "chain" => Box::new(SequentialMultiIterator::new(start, its.into_iter())),
             "chain_single" => SequentialMultiIterator::new_or_single_it(start, its.into_iter()),
+            // the sources arrive from an iterator that does not know how many there are (size_hint (0, None)) ...
+            "chain_lazy" => {
+                let mut v = its.into_iter();
+                SequentialMultiIterator::new_or_single_it(start, std::iter::from_fn(move || v.next()))
+            }
+            // ... or only knows an upper bound (filter: size_hint (0, Some(n)))
+            "chain_filtered" => SequentialMultiIterator::new_or_single_it(start, its.into_iter().filter(|_| true)),
             _ => unreachable!(),
         };
         let mut evs = Vec::new();
@@ -70,8 +78,8 @@ fn run_case(t: &mut Trace, case: u64, kind: &str, variant: &str, start: u32, src
     }
 }
 
-fn variants(kind: &str) -> [&'static str; 2] {
-    if kind == "merge" { ["merge", "merge_single"] } else { ["chain", "chain_single"] }
+fn variants(kind: &str) -> Vec<&'static str> {
+    if kind == "merge" { vec!["merge", "merge_single"] } else { vec!["chain", "chain_single", "chain_lazy", "chain_filtered"] }
 }
 
 fn main() {
@@ -112,7 +120,8 @@ fn main() {
         }
         let start = if rng.chance(1, 2) { 0 } else { rng.below(1_000_000) as u32 };
         let kind = if rng.chance(1, 2) { "merge" } else { "chain" };
-        let v = variants(kind)[rng.below(2) as usize];
+        let vs = variants(kind);
+        let v = vs[rng.below(vs.len() as u64) as usize];
         run_case(&mut t, case, kind, v, start, &srcs);
         case += 1;
     }
